@@ -596,3 +596,183 @@ func sortedKeys[V any](m map[string]V) []string {
 	sort.Strings(ks)
 	return ks
 }
+
+// ---------------------------------------------------------------------------
+// Linear index normalisation for quantifiers.
+//
+// A quantified fact written over relative indices,  ∀j. lo ≤ j < hi ⇒ P(A[base+j]),
+// is rewritten over the absolute index a = base+j:  ∀a. lo ≤ a-base < hi ⇒ P(A[a]).
+// The two are equivalent (j ↦ base+j is a bijection on Int), and the second form has
+// the trigger A[a], which E-matching can instantiate with any index term.
+
+type linTerm struct {
+	coef  map[string]*big.Int
+	terms map[string]*Term
+	konst *big.Int
+}
+
+func linearize(t *Term) *linTerm {
+	l := &linTerm{coef: map[string]*big.Int{}, terms: map[string]*Term{}, konst: big.NewInt(0)}
+	l.add(t, big.NewInt(1))
+	return l
+}
+
+func (l *linTerm) add(t *Term, k *big.Int) {
+	if v, ok := t.IntVal(); ok {
+		l.konst.Add(l.konst, new(big.Int).Mul(v, k))
+		return
+	}
+	switch {
+	case t.Op == "+" && len(t.Args) >= 2:
+		for _, a := range t.Args {
+			l.add(a, k)
+		}
+		return
+	case t.Op == "-" && len(t.Args) == 2:
+		l.add(t.Args[0], k)
+		l.add(t.Args[1], new(big.Int).Neg(k))
+		return
+	case t.Op == "-" && len(t.Args) == 1:
+		l.add(t.Args[0], new(big.Int).Neg(k))
+		return
+	case t.Op == "*" && len(t.Args) == 2:
+		if v, ok := t.Args[0].IntVal(); ok {
+			l.add(t.Args[1], new(big.Int).Mul(k, v))
+			return
+		}
+		if v, ok := t.Args[1].IntVal(); ok {
+			l.add(t.Args[0], new(big.Int).Mul(k, v))
+			return
+		}
+	}
+	s := t.String()
+	if c, ok := l.coef[s]; ok {
+		c.Add(c, k)
+	} else {
+		l.coef[s] = new(big.Int).Set(k)
+		l.terms[s] = t
+	}
+}
+
+// without returns the linear term minus the atom named name, as a Term.
+func (l *linTerm) without(name string) *Term {
+	var sum *Term = IntLitBig(l.konst)
+	for _, s := range sortedKeys(l.coef) {
+		if s == name {
+			continue
+		}
+		c := l.coef[s]
+		if c.Sign() == 0 {
+			continue
+		}
+		var part *Term
+		if c.Cmp(big.NewInt(1)) == 0 {
+			part = l.terms[s]
+		} else if c.Cmp(big.NewInt(-1)) == 0 {
+			sum = Sub(sum, l.terms[s])
+			continue
+		} else {
+			part = Mul(IntLitBig(c), l.terms[s])
+		}
+		if v, ok := sum.IntVal(); ok && v.Sign() == 0 {
+			sum = part
+		} else {
+			sum = Add(sum, part)
+		}
+	}
+	return sum
+}
+
+func mentions(t *Term, name string) bool {
+	if len(t.Args) == 0 {
+		return t.Op == name
+	}
+	for _, a := range t.Args {
+		if mentions(a, name) {
+			return true
+		}
+	}
+	return false
+}
+
+// findIndexWith finds the first select index term of sort Int that mentions name.
+func findIndexWith(t *Term, name string) *Term {
+	if t.Op == "select" && len(t.Args) == 2 {
+		if r := findIndexWith(t.Args[0], name); r != nil {
+			return r
+		}
+		if t.Args[1].Sort == SInt && mentions(t.Args[1], name) {
+			if len(t.Args[1].Args) > 0 { // not the bare variable
+				return t.Args[1]
+			}
+			return nil
+		}
+	}
+	for _, a := range t.Args {
+		if r := findIndexWith(a, name); r != nil {
+			return r
+		}
+	}
+	return nil
+}
+
+func replaceTerm(t *Term, from string, to *Term) *Term {
+	if t.String() == from {
+		return to
+	}
+	if len(t.Args) == 0 {
+		return t
+	}
+	changed := false
+	args := make([]*Term, len(t.Args))
+	for i, a := range t.Args {
+		args[i] = replaceTerm(a, from, to)
+		if args[i] != a {
+			changed = true
+		}
+	}
+	if !changed {
+		return t
+	}
+	n := &Term{Op: t.Op, Args: args, Sort: t.Sort, Bound: t.Bound}
+	for _, p := range t.Pats {
+		n.Pats = append(n.Pats, replaceTerm(p, from, to))
+	}
+	return n
+}
+
+var quantCtr int
+
+// MkQuant builds a quantifier, normalising relative indices to absolute ones.
+func MkQuant(op string, bound []*Term, body *Term) *Term {
+	if body.IsTrue() || body.IsFalse() {
+		return body
+	}
+	nb := make([]*Term, len(bound))
+	copy(nb, bound)
+	for i, b := range nb {
+		if b.Sort != SInt {
+			continue
+		}
+		// bare use A[j] somewhere: already in the good form
+		idx := findIndexWith(body, b.Op)
+		if idx == nil {
+			continue
+		}
+		lin := linearize(idx)
+		c, ok := lin.coef[b.Op]
+		if !ok || c.Cmp(big.NewInt(1)) != 0 {
+			continue
+		}
+		base := lin.without(b.Op)
+		if mentions(base, b.Op) {
+			continue
+		}
+		quantCtr++
+		a := Atom(fmt.Sprintf("a!%d", quantCtr), SInt)
+		body = replaceTerm(body, idx.String(), a)
+		body = Subst(body, map[string]*Term{b.Op: Sub(a, base)})
+		nb[i] = a
+	}
+	return &Term{Op: op, Sort: SBool, Bound: nb, Args: []*Term{body}}
+}
